@@ -16,6 +16,7 @@ type LocCfg struct {
 	Class  string `json:"class"` // mutex | once | atomic | published | confined | latched
 	Lock   string `json:"lock,omitempty"`
 	Once   string `json:"once,omitempty"`
+	Latch  string `json:"latch,omitempty"`
 	Reason string `json:"reason"`
 }
 
@@ -35,6 +36,8 @@ type DomainCfg struct {
 	WrappedCalls  bool              `json:"wrapped_calls"`
 	OptionalMutex []string          `json:"optional_mutex"`
 	EntryHeld     []EntryHeld       `json:"entry_held"`
+	Ignored       map[string]string `json:"ignored_locations"` // pseudo-locations that carry no claim (with reason)
+	Latches       map[string]string `json:"latches"`           // atomic variables used as one-way publication flags (with reason)
 	Locations     map[string]LocCfg `json:"locations"`
 	Note          string            `json:"note"`
 }
@@ -58,6 +61,20 @@ func loadConfig(path string) (*Config, error) {
 }
 
 // ---- analysis driver ----------------------------------------------------------------------------------
+
+// rootTypeDomainOf: the domain whose concurrency-safe *type* this exported method belongs to
+func (a *analysis) rootTypeDomainOf(fn *types.Func) string {
+	fn = fn.Origin()
+	sig := fn.Type().(*types.Signature)
+	if sig.Recv() == nil || !fn.Exported() {
+		return ""
+	}
+	nt := derefNamed(sig.Recv().Type())
+	if nt == nil {
+		return ""
+	}
+	return a.allRoots[typeKey(nt)]
+}
 
 func (a *analysis) rootDomainOf(fn *types.Func) string {
 	fn = fn.Origin()
@@ -91,7 +108,7 @@ func newAnalysis(l *loader, cfg *Config, exempt map[string]bool) *analysis {
 func (a *analysis) run() error {
 	for _, dc := range a.cfg.Domains {
 		d := &domain{cfg: dc, a: a, nodes: map[string]*fnNode{}, rootTypes: map[string]bool{}, home: map[string]bool{},
-			ctors: map[string]bool{}, excluded: dc.Excluded, optional: map[string]bool{}, usedLocs: map[string]bool{}}
+			ctors: map[string]bool{}, excluded: dc.Excluded, optional: map[string]bool{}, usedLocs: map[string]bool{}, optionalUsed: map[string]bool{}, ignoredUsed: map[string]int{}}
 		for _, x := range dc.RootTypes {
 			d.rootTypes[x] = true
 		}
@@ -220,7 +237,7 @@ func (d *domain) escapeResults(n *fnNode) {
 	w := &walker{d: d, n: n, info: n.pkg.info}
 	for _, r := range n.results {
 		if r != nil {
-			w.escape(&aval{funcs: r.funcs, ptrTo: r.ptrTo, ptrTy: r.ptrTy}, "returned by "+baseKey(n.Key), n.body.Rbrace)
+			w.escape(&aval{funcs: r.funcs, ptrTo: r.ptrTo, ptrTy: r.ptrTy, holder: r.holder, hprefix: r.hprefix}, "returned by "+baseKey(n.Key), n.body.Rbrace)
 		}
 	}
 }
@@ -278,6 +295,10 @@ func (d *domain) dropForeignSites() {
 			pk := s.Loc
 			if i := strings.Index(pk, "."); i >= 0 {
 				pk = pk[:i]
+			}
+			if _, ign := d.cfg.Ignored[s.Loc]; ign {
+				d.ignoredUsed[s.Loc]++
+				continue
 			}
 			if s.Kind == "unknown" || d.home[pk] {
 				out = append(out, s)
@@ -663,6 +684,22 @@ func guardOK(c LocCfg, kind string, held map[tok]bool) bool {
 		return kind == "rd"
 	case "confined":
 		return kind != "unknown"
+	case "latched":
+		switch kind {
+		case "wr":
+			return held[tok("mu:"+c.Lock)]
+		case "rd":
+			return held[tok("mu:"+c.Lock)] || held[tok("latch:"+c.Latch)]
+		}
+		return false
+	case "latch":
+		switch kind {
+		case "latchset":
+			return held[tok("mu:"+c.Lock)]
+		case "atomic":
+			return true
+		}
+		return false
 	}
 	return false
 }
